@@ -1,6 +1,6 @@
 CONSTANTS
   Defects = {"xsf_reads"}
-  Family = "cache"
+  Family = "cache_small"
   Deep = FALSE
 INIT Init
 NEXT Next
